@@ -18,8 +18,8 @@ func c14Enc(draft03 bool) Encoding {
 
 // VH_C14_RoundTrip: both drafts x record size rs in {1,2,3} x payload length n = 0..2*rs+1 (quick) /
 // rs in 1..8 x n = 0..4*rs+1 (thorough), payload bytes symbolic, SHA-256 an uninterpreted collision-free function: Encode's stream
-// and digest header equal the independent recursive definition; NewDecoder+ReadAll on that stream with that
-// header returns the payload without error.
+// and digest header equal the independent recursive definition; NewDecoder (record-size limit 16384 or exactly
+// rs) + ReadAll on that stream with that header returns the payload without error.
 func VH_C14_RoundTrip() {
 	vh.MustReach("empty", "single", "multi")
 	draft03 := vh.Choose(2) == 1
@@ -33,8 +33,13 @@ func VH_C14_RoundTrip() {
 	wantStream, top := refEncode(draft03, payload, rs)
 	vh.Assert(bytes.Equal(w.B, wantStream), "stream layout equals the draft's definition")
 	vh.Assert(hdr == refDigestHeader(draft03, top), "digest header equals the draft's definition")
-	dec, err := enc.NewDecoder(bytes.NewReader(w.B), hdr, 16384)
-	vh.Assert(err == nil, "NewDecoder accepts the encoder's output")
+	// record-size limit given to the decoder: the spec's 16384, or exactly the record size (a limit is inclusive)
+	limit := uint64(16384)
+	if vh.Choose(2) == 1 {
+		limit = uint64(rs)
+	}
+	dec, err := enc.NewDecoder(bytes.NewReader(w.B), hdr, limit)
+	vh.Assert(err == nil, "NewDecoder accepts the encoder's output (record size <= limit)")
 	if err != nil {
 		return
 	}
